@@ -700,3 +700,420 @@ def c20(tier, replay):
                        "non-trivial = configurations with several main files")
     rep.cov["exhaustive"] = False
     return rep.finish()
+
+
+# ---------------------------------------------------------------------------
+# C12: legality
+# ---------------------------------------------------------------------------
+def rule_breakers(base, rnd):
+    """One-edit rule breakers built on a legal base environment: the base's
+    definitions, two helper types (an unlimited struct G and a dynamic struct
+    D) and ONE victim definition that breaks exactly one documented rule.
+    -> list of (label, defs)"""
+    I, M, R = S.Int, S.Mem, S.Ref
+    n = len(base)
+    G, D = n + 1, n + 2
+    helpers = [S.StructDef([M("greedy", I(1))]), S.StructDef([M("dyn", I(2))])]
+    fixed_types = [I(1), I(4), S.Flt(8)]
+    other = rnd.choice(fixed_types)
+    out = []
+
+    def victim(label, d):
+        out.append((label, base + helpers + [d]))
+
+    st = S.StructDef
+    victim("greedy array not last", st([M("greedy", I(1)), M("plain", other)]))
+    victim("unlimited struct not last", st([M("plain", R(G)), M("plain", other)]))
+    victim("unlimited struct in fixed array", st([M("fixed", R(G), 2)]))
+    victim("unlimited struct in dynamic array", st([M("dyn", R(G))]))
+    victim("unlimited struct in limited array", st([M("lim", R(G), 2)]))
+    victim("unlimited struct in greedy array", st([M("greedy", R(G))]))
+    victim("unlimited struct in ext-sized array", st([M("plain", I(4)), M("ext", R(G), 0, 1)]))
+    victim("dynamic struct in fixed array", st([M("plain", other), M("fixed", R(D), 3)]))
+    victim("dynamic struct in limited array", st([M("lim", R(D), 2)]))
+    victim("optional dynamic struct", st([M("opt", R(D)), M("plain", other)]))
+    victim("optional unlimited struct", st([M("opt", R(G))]))
+    victim("dynamic union arm", S.UnionDef([{"d": 1, "t": I(1)}, {"d": 2, "t": R(D)}]))
+    victim("unlimited union arm", S.UnionDef([{"d": 1, "t": R(G)}]))
+    victim("sizer after its array", st([M("ext", I(1), 0, 2), M("plain", I(4))]))
+    victim("sizer missing", st([M("plain", I(4)), M("ext", I(1), 0, 9)]))
+    victim("optional sizer", st([M("opt", I(4)), M("ext", I(1), 0, 1)]))
+    victim("float sizer", st([M("plain", S.Flt(4)), M("ext", I(1), 0, 1)]))
+    victim("struct sizer", st([M("plain", R(D)), M("ext", I(1), 0, 1)]))
+    victim("zero fixed array size", st([M("fixed", I(2), 0)]))
+    victim("zero array limit", st([M("lim", I(2), 0)]))
+    victim("duplicate discriminators", S.UnionDef([{"d": 3, "t": I(1)}, {"d": 3, "t": I(2)}]))
+    return out
+
+
+TEXT_BREAKERS = [
+    ("duplicate member names", "struct V { u8 a; u16 a; };\n"),
+    ("duplicate arm names", "union V { 1: u8 a; 2: u16 a; };\n"),
+    ("negative array size", "struct V { u8 a[-1]; };\n"),
+    ("negative limit", "struct V { u8 a<0 - 2>; };\n"),
+    ("enumerator above 32 bits", "enum V { V_a = 0x100000000 };\n"),
+    ("negative enumerator", "enum V { V_a = -1 };\n"),
+    ("discriminator above 32 bits", "union V { 0x100000000: u8 a; };\n"),
+    ("negative discriminator", "union V { -1: u8 a; };\n"),
+    ("duplicate type name", "struct V { u8 a; };\nstruct V { u8 b; };\n"),
+    ("duplicate enumerator name", "enum V { V_a = 1, V_a = 2 };\n"),
+]
+
+
+def legality_worker(items, wid, extra):
+    """items: list of {"text", "expect": "accept"|"reject", "label", "rules", "cpp": bool}"""
+    from . import cppleg as C
+    res = {"fails": [], "n": 0, "samples": [], "nontrivial": 0, "n_accept": 0, "n_reject": 0, "n_cpp": 0}
+    work = tempfile.mkdtemp(prefix="vfleg-", dir=extra.get("scratch"))
+    try:
+        for k, it in enumerate(items):
+            sub = os.path.join(work, "i%d" % k)
+            os.makedirs(sub)
+            path = os.path.join(sub, "s.prophy")
+            with open(path, "w") as f:
+                f.write(it["text"])
+            argv = [path, "--python_out", sub, "--cpp_out", sub]
+            if it.get("cpp_full", True):
+                argv += ["--cpp_full_out", sub]
+            status, info, _ = CL.run_main(argv)
+            res["n"] += 1
+            basef = {"check": "legality", "label": it["label"], "schema": it["text"], "rules": it.get("rules")}
+            if it["expect"] == "reject":
+                res["n_reject"] += 1
+                res["nontrivial"] += 1
+                if status == "ok":
+                    # does the runtime disagree?  (that is the harm the property names)
+                    try:
+                        P.import_generated(sub, "s")
+                        rt = "the generated Python module imports"
+                    except P.CompileFailure as e:
+                        rt = "the generated Python module then fails: %s" % str(e)[:160]
+                    res["fails"].append(dict(basef, what="prophyc accepts a schema that breaks a documented rule (%s: %s); %s"
+                                             % (it["label"], it.get("rules"), rt)))
+                elif status == "internal":
+                    res["fails"].append(dict(basef, what="rule breaker (%s) ends in an internal exception: %s" % (it["label"], info)))
+            else:
+                res["n_accept"] += 1
+                if status != "ok":
+                    res["fails"].append(dict(basef, what="prophyc rejects a legal schema: %s" % (info,)))
+                else:
+                    try:
+                        P.import_generated(sub, "s")
+                    except P.CompileFailure as e:
+                        res["fails"].append(dict(basef, what="legal schema accepted but the Python module is unusable: %s" % e))
+                    if it.get("cpp"):
+                        res["n_cpp"] += 1
+                        for srcf, comp in (("s.ppf.cpp", "clang++-14"), ("s.pp.cpp", "g++")):
+                            rc, out = C.run_cmd([comp, "-std=c++11", "-fsyntax-only", "-I", C.INCLUDE, "-I", sub, srcf], sub)
+                            if rc != 0:
+                                res["fails"].append(dict(basef, what="legal schema accepted but %s does not compile: %s"
+                                                         % (srcf, out[-400:])))
+            if len(res["samples"]) < 1 and it["expect"] == "reject":
+                res["samples"].append({"label": it["label"], "schema": it["text"][-300:], "prophyc": status})
+            shutil.rmtree(sub, ignore_errors=True)
+    finally:
+        shutil.rmtree(work, ignore_errors=True)
+    return res
+
+
+def c12(tier, replay):
+    from . import gen
+    from .cppwire import cpp_full_accepts
+    rep = Report("C12", tier)
+    rep.assumptions = [
+        "legal schemas: random environments (vf/gen.py) certified legal by spec/Schema.tla via TLC; rule breakers: each "
+        "legal environment + helper types + one victim definition breaking one documented rule; TLC (LayoutGiven) "
+        "confirms each is illegal and names the violated rule",
+        "rules that live below the abstract schema (duplicate names, negative sizes, values outside 32 bits) are text-level "
+        "cases whose expectation is the documented rule itself",
+        "identifiers avoid Python/C++ keywords; C++ usability is checked with -fsyntax-only on a sample of the legal schemas"]
+    rnd = random.Random(seed())
+    nbase = 40 if tier == "quick" else 400
+    bases = [gen.gen_env(rnd) for _ in range(nbase)]
+    envs, meta = [], []
+    for bi, b in enumerate(bases):
+        envs.append(b)
+        meta.append(("legal base", "accept"))
+        if bi % 2 == 0 or tier != "quick":
+            for label, defs in rule_breakers(b, rnd):
+                envs.append(defs)
+                meta.append((label, "reject"))
+    lays, st = wire.layout_of(envs)
+    rep.add_tlc(st)
+    items = []
+    for (label, expect), defs, l in zip(meta, envs, lays):
+        if expect == "accept" and not l["legal"]:
+            raise MachineryError("generator produced an environment the specification calls illegal")
+        if expect == "reject" and l["legal"]:
+            raise MachineryError("rule breaker %r is legal per the specification" % label)
+        env = S.Env(defs)
+        items.append({"text": env.render(), "expect": expect, "label": label, "rules": l.get("rules"),
+                      "cpp": expect == "accept" and cpp_full_accepts(env) and len(items) % 3 == 0,
+                      "cpp_full": cpp_full_accepts(env)})
+    for b in bases[:6 if tier == "quick" else 40]:
+        env = S.Env(b)
+        for label, text in TEXT_BREAKERS:
+            items.append({"text": env.render() + "\n" + text, "expect": "reject", "label": label,
+                          "rules": ["text-level rule"], "cpp": False})
+    jobs = _chunks(items, NCPU)
+    with ProcessPoolExecutor(max_workers=NCPU) as ex:
+        results = list(ex.map(legality_worker, jobs, range(len(jobs)), [{"scratch": scratch_dir("leg")}] * len(jobs)))
+    nt = 0
+    for r in results:
+        rep.count(r["n"])
+        rep.validated(r["n"])
+        nt += r["nontrivial"]
+        for k in ("n_accept", "n_reject", "n_cpp"):
+            rep.cov[k] = rep.cov.get(k, 0) + r[k]
+        for s in r["samples"]:
+            rep.sample(s)
+        for f in r["fails"]:
+            rep.violation(f, shadows.match("C12", f))
+    for k in range(nt):
+        rep.nontrivial(k)
+    rep.cov["rule"] = ("TLC evaluates the legality rules of spec/Schema.tla on every environment (legal bases and one-edit "
+                       "rule breakers) and names the violated rule; prophyc must accept exactly the legal ones and every "
+                       "requested artifact of an accepted schema must be usable; non-trivial = rule breakers")
+    rep.cov["exhaustive"] = False
+    return rep.finish()
+
+
+# ---------------------------------------------------------------------------
+# C13: termination with outputs or a designed diagnostic
+# ---------------------------------------------------------------------------
+BANNED = ("ValueError", "KeyError", "AttributeError", "TypeError", "IndexError", "AssertionError", "RecursionError",
+          "UnboundLocalError", "NameError", "ZeroDivisionError", "MemoryError")
+
+VALID_PROPHY = """\
+const LIMIT = 4;
+enum Color { Color_red = 1, Color_green = 2 };
+typedef u16 word_t;
+struct Point { u8 x; word_t y; };
+union Shape { 1: u32 circle; 2: Point corner; };
+struct Picture { Color c; Point pts<LIMIT>; Shape s; u8* opt; bytes name<>; u32 tail<...>; };
+"""
+
+VALID_ISAR = """\
+<defs>
+  <constant name="LIMIT" value="4"/>
+  <enum name="Color"><enum-member name="Color_red" value="1"/><enum-member name="Color_green" value="2"/></enum>
+  <typedef name="word_t" primitiveType="16 bit integer unsigned"/>
+  <struct name="Point"><member name="x" type="u8"/><member name="y" type="word_t"/></struct>
+  <union name="Shape"><member name="circle" type="u32" discriminatorValue="1"/><member name="corner" type="Point" discriminatorValue="2"/></union>
+  <struct name="Picture"><member name="c" type="Color"/><member name="pts" type="Point"><dimension size="LIMIT" isVariableSize="true"/></member><member name="s" type="Shape"/></struct>
+</defs>
+"""
+
+
+def _tokens(text):
+    import re
+    return re.findall(r"\w+|[^\w\s]|\s+", text)
+
+
+def concretise(case, rnd, root):
+    """A Pipeline case -> (argv, files to write, expected outputs or None)"""
+    fe, fault, pos, pfault, ofault = case["fe"], case["fault"], case["pos"], case["pfault"], case["ofault"]
+    files = {}
+    out = os.path.join(root, "out")
+    ext = ".prophy" if fe == "prophy" else ".xml"
+    main = "main" + ext
+    text = VALID_PROPHY if fe == "prophy" else VALID_ISAR
+    extra_argv = []
+    if fe == "prophy":
+        toks = [t for t in _tokens(text)]
+        idx = [i for i, t in enumerate(toks) if t.strip()]
+        if fault == "delete_token":
+            del toks[idx[(pos * 7) % len(idx)]]
+            text = "".join(toks)
+        elif fault == "swap_tokens":
+            i, j = idx[(pos * 5) % len(idx)], idx[(pos * 11 + 3) % len(idx)]
+            toks[i], toks[j] = toks[j], toks[i]
+            text = "".join(toks)
+        elif fault == "illegal_char":
+            toks.insert(idx[(pos * 3) % len(idx)], rnd.choice(["$", "`", "\\", "\x00", "\u00e9", "'", "\"", "~", "?"]))
+            text = "".join(toks)
+        elif fault == "undefined_type":
+            text += "struct Z { Nowhere n; };\n"
+        elif fault == "duplicate_name":
+            text += "struct Point { u8 again; };\n"
+        elif fault == "division_by_zero":
+            text += "const Z = 1 / (LIMIT - 4);\nstruct ZZ { u8 a[4 / 0 + 1]; };\n"
+        elif fault == "negative_size":
+            text += "struct Z { u8 a[LIMIT - 9]; };\n"
+        elif fault == "missing_include":
+            text = '#include "nowhere.prophy"\n' + text
+        elif fault == "cyclic_include":
+            files["other.prophy"] = '#include "main.prophy"\nstruct O { u8 o; };\n'
+            text = '#include "other.prophy"\n' + text
+        elif fault == "self_include":
+            text = '#include "main.prophy"\n' + text
+        elif fault == "self_recursive_struct":
+            text += "struct Z { u8 a; Z z; };\n"
+        elif fault == "mutually_recursive_structs":
+            text += "struct Z1 { Z2 z; };\nstruct Z2 { Z1 z; };\n"
+        elif fault == "unterminated_comment":
+            text += "/* no end\nstruct Z { u8 a; };\n"
+        elif fault == "empty_file":
+            text = rnd.choice(["", "\n\n", "// nothing\n", "/* */"])
+        elif fault == "random_text":
+            text = "".join(rnd.choice("abc{};<>[]=,:*@#\"./ \n\t0123456789xstructenumunion\u00e9\u4e2d") for _ in range(rnd.randint(1, 200)))
+        elif fault == "constant_as_type":
+            text += "struct Z { LIMIT l; Color_red r; };\n"
+        elif fault == "greedy_not_last":
+            text += "struct Z { u8 g<...>; u8 after; };\n"
+    else:
+        if fault == "malformed_xml":
+            text = text.replace("</struct>", "", 1)
+        elif fault == "type_cycle":
+            text = text.replace("</defs>", '<struct name="CA"><member name="b" type="CB"/></struct><struct name="CB"><member name="a" type="CA"/></struct></defs>')
+        elif fault == "self_reference":
+            text = text.replace("</defs>", '<struct name="CS"><member name="s" type="CS"/></struct></defs>')
+        elif fault == "constant_cycle":
+            text = text.replace("</defs>", '<constant name="K1" value="K2 + 1"/><constant name="K2" value="K1 + 1"/></defs>')
+        elif fault == "undefined_type":
+            text = text.replace("</defs>", '<struct name="Z"><member name="n" type="Nowhere"/></struct></defs>')
+        elif fault == "duplicate_enum_value":
+            text = text.replace('value="2"/></enum>', 'value="1"/></enum>')
+        elif fault == "missing_include":
+            text = text.replace("<defs>", '<defs><xi:include xmlns:xi="http://www.w3.org/2001/XInclude" href="nowhere.xml"/>')
+        elif fault == "bad_dimension":
+            text = text.replace('size="LIMIT"', 'size="many"')
+        elif fault == "member_without_name":
+            text = text.replace('<member name="x" type="u8"/>', '<member type="u8"/>')
+        elif fault == "member_without_type":
+            text = text.replace('<member name="x" type="u8"/>', '<member name="x"/>')
+        elif fault == "empty_root":
+            text = rnd.choice(["<defs/>", "<defs></defs>", "", "<?xml version='1.0'?>"])
+        elif fault == "random_text":
+            text = "".join(rnd.choice("<>/=\"abc defs struct member name type 123\n") for _ in range(rnd.randint(1, 200)))
+    files[main] = text
+    argv = [os.path.join(root, main)]
+    if fe == "isar":
+        argv.append("--isar")
+    outputs = ["--python_out", out, "--cpp_out", out, "--cpp_full_out", out, "--prophy_out", out]
+    if pfault != "none":
+        patch = {"one_word_line": "Picture\n", "unknown_action": "Picture explode c\n",
+                 "wrong_param_count": "Picture type c\n", "member_not_found": "Picture type nosuch u8\n",
+                 "non_integer_index": "Picture insert first extra u8\n", "absent_message": "NoSuchMessage type a u8\n",
+                 "empty_patch": "\n\n"}[pfault]
+        files["fix.patch"] = patch
+        argv += ["--patch", os.path.join(root, "fix.patch")]
+    if ofault == "no_input":
+        argv = outputs
+    elif ofault == "no_output":
+        pass
+    elif ofault == "missing_input_file":
+        argv = [os.path.join(root, "absent" + ext)] + argv[1:] + outputs
+    elif ofault == "isar_and_sack":
+        argv += ["--isar", "--sack"] + outputs
+    elif ofault == "missing_include_dir":
+        argv += ["-I", os.path.join(root, "no_such_dir")] + outputs
+    elif ofault == "missing_patch_file":
+        argv += ["--patch", os.path.join(root, "absent.patch")] + outputs
+    elif ofault == "unknown_option":
+        argv += ["--frobnicate"] + outputs
+    else:
+        argv += outputs
+    return argv, files, out
+
+
+_Alarm = CL.Watchdog
+
+
+def _on_alarm(sig, frm):
+    raise _Alarm()
+
+
+def termination_worker(cases, wid, extra):
+    import signal
+    res = {"fails": [], "n": 0, "samples": [], "nontrivial": 0, "outcomes": {}, "foreign": {}}
+    signal.signal(signal.SIGALRM, _on_alarm)
+    rnd = random.Random(extra["seed"] * 977 + wid)
+    base = tempfile.mkdtemp(prefix="vfterm-", dir=extra.get("scratch"))
+    try:
+        for k, case in enumerate(cases):
+            root = os.path.join(base, "c%d" % k)
+            os.makedirs(os.path.join(root, "out"))
+            argv, files, out = concretise(case, rnd, root)
+            for name, text in files.items():
+                with open(os.path.join(root, name), "w", encoding="utf-8", errors="surrogateescape") as f:
+                    f.write(text)
+            res["n"] += 1
+            if case["fault"] != "none" or case["pfault"] != "none" or case["ofault"] != "none":
+                res["nontrivial"] += 1
+            signal.alarm(8)
+            try:
+                status, info, _ = CL.run_main(argv)
+            except _Alarm:
+                status, info = "timeout", "no answer within 8 s"
+            finally:
+                signal.alarm(0)
+            exc_type = info.split(":", 1)[0] if status == "internal" else ""
+            key = "%s/%s/%s/%s -> %s%s" % (case["fe"], case["fault"], case["pfault"], case["ofault"], status,
+                                            (" " + exc_type) if exc_type else "")
+            res["outcomes"][key] = res["outcomes"].get(key, 0) + 1
+            basef = {"check": "termination", "case": case, "argv": [a.replace(root, "<dir>") for a in argv],
+                     "files": files}
+            if status == "timeout":
+                res["fails"].append(dict(basef, what="prophyc did not terminate within 8 s on %s/%s" % (case["fe"], case["fault"])))
+            elif status == "internal":
+                if exc_type in BANNED:
+                    res["fails"].append(dict(basef, what="internal exception escaped as the answer: %s" % info[:300],
+                                             exception=exc_type))
+                else:
+                    res["foreign"][exc_type] = res["foreign"].get(exc_type, 0) + 1
+            elif status == "ok" and case["ofault"] == "none":
+                missing = [e for e in (".py", ".pp.hpp", ".pp.cpp", ".ppf.hpp", ".ppf.cpp", ".prophy")
+                           if not os.path.exists(os.path.join(out, "main" + e))]
+                if missing:
+                    res["fails"].append(dict(basef, what="prophyc succeeded but did not write %r" % (missing,)))
+            if len(res["samples"]) < 1 and case["fault"] not in ("none",):
+                res["samples"].append({"case": case, "outcome": status, "info": str(info)[:200]})
+            shutil.rmtree(root, ignore_errors=True)
+    finally:
+        shutil.rmtree(base, ignore_errors=True)
+    return res
+
+
+def c13(tier, replay):
+    rep = Report("C13", tier)
+    rep.assumptions = [
+        "spec/Pipeline.tla is the outcome automaton (phases, where each fault class is detected, no internal-exception "
+        "outcome, no re-entry); spec/TopoSort.tla refutes termination of the sort on cyclic graphs; spec/FileProc.tla "
+        "covers the include error paths - TLC enumerates the structured fault space",
+        "each case is concretised on two fixed valid schemas (prophy text and isar XML) with seeded token positions and "
+        "random text; prophyc.main runs in-process under an 8 s SIGALRM watchdog (healthy runs take milliseconds)",
+        "violations: timeout, or an escaping exception whose type is in the property's list (+ NameError, "
+        "UnboundLocalError, ZeroDivisionError, MemoryError); other foreign exception types are reported in the evidence"]
+    cases = []
+    res = run_tlc("Pipeline", {}, invariants=["DesignedOnly", "AllOrNothing", "PDump"], properties=["Terminates", "Monotone"],
+                  spec="PSpec", prefix=("PCASE",), on_line=lambda t, b: cases.append(json.loads(b)))
+    rep.add_tlc(res.stats)
+    reps = 4 if tier == "quick" else 60
+    allcases = [c for c in cases for _ in range(reps if c["fault"] in ("random_text", "illegal_char", "empty_file") else 1)]
+    jobs = _chunks(allcases, NCPU)
+    with ProcessPoolExecutor(max_workers=NCPU) as ex:
+        results = list(ex.map(termination_worker, jobs, range(len(jobs)),
+                              [{"scratch": scratch_dir("term"), "seed": seed()}] * len(jobs)))
+    nt = 0
+    outcomes, foreign = {}, {}
+    for r in results:
+        rep.count(r["n"])
+        rep.validated(r["n"])
+        nt += r["nontrivial"]
+        for k, v in r["outcomes"].items():
+            outcomes[k] = outcomes.get(k, 0) + v
+        for k, v in r["foreign"].items():
+            foreign[k] = foreign.get(k, 0) + v
+        for s in r["samples"]:
+            rep.sample(s)
+        for f in r["fails"]:
+            rep.violation(f, shadows.match("C13", f))
+    for k in range(nt):
+        rep.nontrivial(k)
+    rep.cov["outcomes"] = outcomes
+    rep.cov["foreign_exception_types"] = foreign
+    rep.cov["rule"] = ("TLC enumerates (front-end, fault class, position, patch fault, option fault) from spec/Pipeline.tla; "
+                       "each is turned into concrete files and options and run; non-trivial = any fault present")
+    rep.cov["exhaustive"] = False
+    return rep.finish()
